@@ -14,7 +14,7 @@ def mp_jobs(tier, seed):
     q = tier == "quick"
     return [Job("framework.props.mpfamily", "run_mp_shim",
                 {"props": ["C17"], "seed": seed * 313 + k, "count": 20 if q else 200, "enum_limit": 2000,
-                 "samples": 100, "deadline_s": 80 if q else 600},
+                 "samples": 100, "deadline_s": 60 if q else 600},
                 mode="interp" if k % 2 else "jit", timeout=300 if q else 1500, tag="mpshim:%d" % k, stall_s=90)
             for k in range(2 if q else 6)]
 
